@@ -57,9 +57,14 @@ const Prelude = `(set-option :produce-models true)
 (define-fun typeof ((x Any)) Int (ite ((_ is anynil) x) 0 (ite ((_ is any_i) x) (a_tag x) (ite ((_ is any_s) x) (a_stag x) (ite ((_ is any_b) x) (a_btag x) (ite ((_ is any_sl) x) (a_sltag x) (a_atag x)))))))
 (define-fun nil_slice () Slice (mk_slice 0 0 0 0))
 (define-fun zarr () (Array Int Int) ((as const (Array Int Int)) 0))
-(define-fun bnorm ((b Bytes)) Bool (and (>= (blen b) 0) (forall ((i Int)) (! (=> (or (< i 0) (>= i (blen b))) (= (select (barr b) i) 0)) :pattern ((select (barr b) i))))))
+(define-fun bnormdef ((b Bytes)) Bool (and (>= (blen b) 0) (forall ((i Int)) (! (=> (or (< i 0) (>= i (blen b))) (= (select (barr b) i) 0)) :pattern ((select (barr b) i))))))
 (define-fun bapp ((b Bytes) (x Int)) Bytes (mkb (+ (blen b) 1) (store (barr b) (blen b) x)))
 (declare-fun errstr (Any) String)
+(declare-fun idx (Int Int) Int)
+(assert (forall ((o Int) (i Int)) (! (= (idx o i) (+ o i)) :pattern ((idx o i)))))
+(declare-fun snapb ((Array Int Int) Int Int) Bytes)
+(assert (forall ((r (Array Int Int)) (o Int) (n Int)) (! (and (= (blen (snapb r o n)) n) (= (select (barr (snapb r o n)) n) 0)) :pattern ((snapb r o n)))))
+(assert (forall ((r (Array Int Int)) (o Int) (n Int) (i Int)) (! (= (select (barr (snapb r o n)) i) (ite (and (<= 0 i) (< i n)) (select r (+ o i)) 0)) :pattern ((select (barr (snapb r o n)) i)))))
 `
 
 func And(xs ...string) string {
